@@ -431,6 +431,32 @@ Proof. exact never_written_journal_is_clear. Qed.
 Check never_written_journal_decodes_clear : forall s0 s1 total, all_zero s0 = true -> all_zero s1 = true -> decode_journal s0 s1 total = Some (0, 1, []).
 Print Assumptions never_written_journal_decodes_clear.
 
+(* the journal of a file at rest: the CLEAR record the encoder writes (magic, version, generation,
+   state, count, CRC-32C over the image with both checksum fields zeroed, and its complement) is
+   read back by the slot decoder whatever the rest of the slot still holds; a journal whose slots
+   hold such records, or were never written, decodes to "clear" -- the hypothesis of
+   open_reads_any_quiescent_file *)
+Theorem clear_journal_record_roundtrip : forall g rest total, 0 < g -> g < 2 ^ 64 -> decode_slot (encode_journal g JOURNAL_CLEAR [] ++ rest) total = Some (g, []).
+Proof. exact clear_journal_slot_roundtrip. Qed.
+Check clear_journal_record_roundtrip : forall g rest total, 0 < g -> g < 2 ^ 64 -> decode_slot (encode_journal g JOURNAL_CLEAR [] ++ rest) total = Some (g, []).
+Print Assumptions clear_journal_record_roundtrip.
+
+Theorem journal_with_a_clear_record_decodes_clear : forall g rest0 s1 total, 0 < g -> g < 2 ^ 64 -> all_zero s1 = true ->
+  decode_journal (encode_journal g JOURNAL_CLEAR [] ++ rest0) s1 total = Some (g, 0, []).
+Proof. exact journal_with_clear_records_decodes_clear. Qed.
+Check journal_with_a_clear_record_decodes_clear : forall g rest0 s1 total, 0 < g -> g < 2 ^ 64 -> all_zero s1 = true ->
+  decode_journal (encode_journal g JOURNAL_CLEAR [] ++ rest0) s1 total = Some (g, 0, []).
+Print Assumptions journal_with_a_clear_record_decodes_clear.
+
+Theorem journal_with_two_clear_records_decodes_clear : forall g0 g1 rest0 rest1 total, 0 < g0 -> g0 < 2 ^ 64 -> 0 < g1 -> g1 < 2 ^ 64 ->
+  exists g slot, decode_journal (encode_journal g0 JOURNAL_CLEAR [] ++ rest0) (encode_journal g1 JOURNAL_CLEAR [] ++ rest1) total
+                 = Some (g, slot, []).
+Proof. exact MetaJournalProofs.journal_with_two_clear_records_decodes_clear. Qed.
+Check journal_with_two_clear_records_decodes_clear : forall g0 g1 rest0 rest1 total, 0 < g0 -> g0 < 2 ^ 64 -> 0 < g1 -> g1 < 2 ^ 64 ->
+  exists g slot, decode_journal (encode_journal g0 JOURNAL_CLEAR [] ++ rest0) (encode_journal g1 JOURNAL_CLEAR [] ++ rest1) total
+                 = Some (g, slot, []).
+Print Assumptions journal_with_two_clear_records_decodes_clear.
+
 Theorem open_reads_any_quiescent_file : forall c img m jgen jslot its,
   c_ro c = false -> c_now c = None ->
   (17 <= length img)%nat ->
